@@ -120,7 +120,13 @@ def decode_steps(dec, tys):
             if ty[0] == 'bits':
                 bits = []
                 for _ in range(ty[1]):
-                    bits += dec.decode_bits()
+                    got = dec.decode_bits()
+                    bits += got
+                    # the caller owns what a decode call returns: it trims the padding off in place (the decoder, and every later
+                    # decoder, must not see that)
+                    if isinstance(got, list):
+                        del got[5:]
+                        got.reverse()
                 outs.append(canon_decoded('bits', bits))
             elif ty[0] == 'str':
                 outs.append(canon_decoded('str', dec.decode_string(ty[1])))
